@@ -6,7 +6,7 @@ use super::*;
 use crate::verif_kani::vk;
 use std::io::ErrorKind;
 
-pub(crate) const CAP: usize = 16;
+pub(crate) const CAP: usize = 10;
 
 #[derive(Debug)]
 pub(crate) struct Mock {
